@@ -90,6 +90,11 @@ def method(eng, p, o, name, args, kws):
             v = args[0]
             t = typed_elem(eng, p, c, v)
             p.heap[o.oid] = ('arr', Store(a, n, t), n + 1, kind) + tuple(c[4:]); return [(p, None)]
+        if name == 'extend' and len(args) == 1 and isinstance(args[0], Host) and args[0].kind == 'replist':
+            # extend([x] * m): cells n .. n+m-1 hold x, the others are unchanged (a lambda array: no quantifier)
+            t = typed_elem(eng, p, c, args[0].value); m = args[0].n
+            ji = z3.Int('ext_i')
+            p.heap[o.oid] = ('arr', z3.Lambda([ji], z3.If(And(ji >= n, ji < n + m), t, Select(a, ji))), n + m, kind) + tuple(c[4:]); return [(p, None)]
         if name == 'clear':
             p.heap[o.oid] = ('arr', a, IntVal(0), kind) + tuple(c[4:]); return [(p, None)]
         if name == 'pop' and not args:
